@@ -107,7 +107,6 @@ package swamp
 //@ func (*swamp).treasuresForBeacon(s, bc) (out)
 //@   property C07
 //@   nopanic
-//@   requires[key_index] s.beaconKey != nil
 //@   modifies *
 //@   loop 0 invariant[only_with_attribute] forall k in keys(filtered): has(all, k) && filtered[k] == all[k] && U_treasure_created(filtered[k]) != 0
 //@   loop 0 invariant[all_with_attribute] forall k in keys(all): visited(k) && U_treasure_created(all[k]) != 0 ==> has(filtered, k)
@@ -115,8 +114,8 @@ package swamp
 //@   loop 1 invariant[all_with_attribute] forall k in keys(all): visited(k) && U_treasure_modified(all[k]) != 0 ==> has(filtered, k)
 //@   loop 2 invariant[only_with_attribute] forall k in keys(filtered): has(all, k) && filtered[k] == all[k] && U_treasure_exp(filtered[k]) != 0
 //@   loop 2 invariant[all_with_attribute] forall k in keys(all): visited(k) && U_treasure_exp(all[k]) != 0 ==> has(filtered, k)
-//@   ensures[members_carry_the_attribute] forall k in keys(out): has(lastret("Beacon.GetAll"), k) && out[k] == lastret("Beacon.GetAll")[k] && attrof(bc, out[k]) != 0
-//@   ensures[every_record_with_the_attribute_is_a_member] forall k in keys(lastret("Beacon.GetAll")): attrof(bc, lastret("Beacon.GetAll")[k]) != 0 ==> has(out, k)
+//@   ensures[members_carry_the_attribute] forall k in keys(out): has(icall("GetAll", s.beaconKey), k) && out[k] == icall("GetAll", s.beaconKey)[k] && attrof(bc, out[k]) != 0
+//@   ensures[every_record_with_the_attribute_is_a_member] forall k in keys(icall("GetAll", s.beaconKey)): attrof(bc, icall("GetAll", s.beaconKey)[k]) != 0 ==> has(out, k)
 
 //@ func (*swamp).buildBeacon(s, beaconASC, beaconDESC, bc)
 //@   property C07
@@ -152,6 +151,7 @@ package swamp
 //@   ensures[desc_ValueFloat64] !old(icall("IsInitialized", beaconDESC)) && bc == BeaconTypeValueFloat64 ==> calls("Beacon.SortByValueFloat64DESC") == old(calls("Beacon.SortByValueFloat64DESC")) + 1 && calledwith("Beacon.SortByValueFloat64DESC", 0, beaconDESC)
 //@   ensures[asc_ValueString] !old(icall("IsInitialized", beaconASC)) && bc == BeaconTypeValueString ==> calls("Beacon.SortByValueStringASC") == old(calls("Beacon.SortByValueStringASC")) + 1 && calledwith("Beacon.SortByValueStringASC", 0, beaconASC)
 //@   ensures[desc_ValueString] !old(icall("IsInitialized", beaconDESC)) && bc == BeaconTypeValueString ==> calls("Beacon.SortByValueStringDESC") == old(calls("Beacon.SortByValueStringDESC")) + 1 && calledwith("Beacon.SortByValueStringDESC", 0, beaconDESC)
+//@   ensures[filled_with_the_records_of_this_attribute] calls("Beacon.PushManyFromMap") > old(calls("Beacon.PushManyFromMap")) ==> calledwith("swamp.treasuresForBeacon", 1, bc) && calledwith("Beacon.PushManyFromMap", 1, lastret("swamp.treasuresForBeacon"))
 //@   ensures[filled_before_sorted] !old(icall("IsInitialized", beaconASC)) || !old(icall("IsInitialized", beaconDESC)) ==> calls("Beacon.PushManyFromMap") > old(calls("Beacon.PushManyFromMap"))
 
 // ---------------------------------------------------------------------------------------
@@ -206,7 +206,7 @@ package swamp
 // Representation invariant of a swamp (established by New): the ordered indexes exist and the
 // ascending / descending index of one attribute are different objects.
 //@ type swamp
-//@   invariant[indexes] self.keyBeaconASC != nil && self.keyBeaconDESC != nil && ipay(self.keyBeaconASC) != ipay(self.keyBeaconDESC) && self.creationTimeBeaconASC != nil && self.creationTimeBeaconDESC != nil && ipay(self.creationTimeBeaconASC) != ipay(self.creationTimeBeaconDESC) && self.updateTimeBeaconASC != nil && self.updateTimeBeaconDESC != nil && ipay(self.updateTimeBeaconASC) != ipay(self.updateTimeBeaconDESC) && self.expirationTimeBeaconASC != nil && self.expirationTimeBeaconDESC != nil && ipay(self.expirationTimeBeaconASC) != ipay(self.expirationTimeBeaconDESC) && self.valueBeaconASC != nil && self.valueBeaconDESC != nil && ipay(self.valueBeaconASC) != ipay(self.valueBeaconDESC)
+//@   invariant[indexes] self.beaconKey != nil && self.keyBeaconASC != nil && self.keyBeaconDESC != nil && ipay(self.keyBeaconASC) != ipay(self.keyBeaconDESC) && self.creationTimeBeaconASC != nil && self.creationTimeBeaconDESC != nil && ipay(self.creationTimeBeaconASC) != ipay(self.creationTimeBeaconDESC) && self.updateTimeBeaconASC != nil && self.updateTimeBeaconDESC != nil && ipay(self.updateTimeBeaconASC) != ipay(self.updateTimeBeaconDESC) && self.expirationTimeBeaconASC != nil && self.expirationTimeBeaconDESC != nil && ipay(self.expirationTimeBeaconASC) != ipay(self.expirationTimeBeaconDESC) && self.valueBeaconASC != nil && self.valueBeaconDESC != nil && ipay(self.valueBeaconASC) != ipay(self.valueBeaconDESC)
 
 // wrapMsgpackBody: the stored value is the two magic bytes followed by exactly the patched body.
 //@ func wrapMsgpackBody(body) (out)
